@@ -214,5 +214,5 @@ def shards(tier):
 
 
 def run_shard(shard, tier, seed, stats, known_sigs):
-  n = _B[tier] * (4 if shard['est'] in CLOSED else 1)     # closed-form learners are cheap: more cases
+  n = _B[tier] * (8 if shard['est'] == 'LFDA' else 4 if shard['est'] in CLOSED else 1)     # closed-form learners are cheap: more cases
   return drive(check_c19, case_strategy(shard['est']), n, seed, stats, known_sigs, name='check_c19')
